@@ -396,7 +396,10 @@ func short(v interface{}) string {
 
 // DiffGeneric compares two generic JSON trees exactly (after normJSONValue) and returns the first difference.
 func DiffGeneric(want, got interface{}, path string) string {
-	want, got = normJSONValue(want), normJSONValue(got)
+	return diffNorm(normJSONValue(want), normJSONValue(got), path)
+}
+
+func diffNorm(want, got interface{}, path string) string {
 	switch w := want.(type) {
 	case map[string]interface{}:
 		g, ok := got.(map[string]interface{})
@@ -424,7 +427,7 @@ func DiffGeneric(want, got interface{}, path string) string {
 			if !gok {
 				return fmt.Sprintf("%s.%s: missing (want %s)", path, k, short(wv))
 			}
-			if d := DiffGeneric(wv, gv, path+"."+k); d != "" {
+			if d := diffNorm(wv, gv, path+"."+k); d != "" {
 				return d
 			}
 		}
@@ -435,7 +438,7 @@ func DiffGeneric(want, got interface{}, path string) string {
 			return fmt.Sprintf("%s: want %s, got %s", path, short(want), short(got))
 		}
 		for i := range w {
-			if d := DiffGeneric(w[i], g[i], fmt.Sprintf("%s[%d]", path, i)); d != "" {
+			if d := diffNorm(w[i], g[i], fmt.Sprintf("%s[%d]", path, i)); d != "" {
 				return d
 			}
 		}
